@@ -45,27 +45,57 @@ def fixpoint_loop(F, res, rid, f, flag, containers, label):
             return
         flag = cands.pop()
         L = f.local_of_var(flag)
-    # the loop whose header switches on the flag
+    # the loop that the flag controls: `while flag { .. }` (the header switches on it) or `loop { .. if !flag { break } }`
+    # (a switch on it inside the body leaves the loop)
+    tb0 = TermBuilder(f, F)
+    def on_flag(t):
+        if t["k"] != "switch":
+            return False
+        op = t["op"]
+        return op["k"] in ("copy", "move") and (op["p"]["l"] == L or tb0.operand(op) == ("var", flag)
+                                               or tb0.operand(op) == ("un", "Not", ("var", flag)))
     header = None
     for h, body in loops.items():
-        t = f.blocks[h]["term"]
-        # header may be `switch(copy flag)` possibly after a copy
-        if t["k"] == "switch":
-            tb = TermBuilder(f, F)
-            op = t["op"]
-            if op["k"] in ("copy", "move") and (op["p"]["l"] == L or tb.operand(op) == ("var", flag)):
-                header = h
+        region = set(body) | {h}
+        for b in region:
+            t = f.blocks[b]["term"]
+            if on_flag(t) and any(s not in region for s in f.succ(b)):
+                if header is None or len(body) > len(loops[header]):
+                    header = h
     if header is None:
         res.violation(rid, "%s/exit" % label, "%s: no loop is controlled by the fixpoint flag `%s` (the loop may stop before a round "
                       "without growth)" % (label, flag), f.loc())
         return
     body = loops[header]
-    t = f.blocks[header]["term"]
-    exits = [(v, b) for v, b in t["targets"] if b not in body] + ([("other", t["otherwise"])] if t["otherwise"] not in body else [])
-    if [v for v, b in exits] == [0]:
+    region = set(body) | {header}
+    # every way out of the loop is the flag being false
+    exit_vals = []
+    for b in region:
+        t = f.blocks[b]["term"]
+        def dead(s):
+            # a block that only panics / is unreachable is not an exit of the computation
+            k = f.blocks[s]["term"]["k"]
+            return k in ("unreachable", "resume", "terminate") or (k == "call" and f.blocks[s]["term"].get("t") is None)
+        outs = [s for s in f.succ(b) if s not in region and not dead(s)]
+        if not outs:
+            continue
+        if t["k"] in ("call", "drop", "assert"):
+            continue          # unwinding / diverging edges are not exits of the computation
+        if not on_flag(t):
+            exit_vals.append("other")
+            continue
+        neg = tb0.operand(t["op"]) == ("un", "Not", ("var", flag))
+        for v, tgt in t["targets"]:
+            if tgt not in region and not dead(tgt):
+                exit_vals.append((1 - v) if neg and v in (0, 1) else v)
+        if t["otherwise"] not in region and not dead(t["otherwise"]):
+            taken = {v for v, _ in t["targets"]}
+            ov = 1 if 0 in taken else 0
+            exit_vals.append((1 - ov) if neg else ov)
+    if exit_vals and all(v == 0 for v in exit_vals):
         res.ok(rid, "%s/exit" % label, f.loc(), "the loop is left only when `%s` is false" % flag)
     else:
-        res.violation(rid, "%s/exit" % label, "%s: the fixpoint loop is left when `%s` is %s" % (label, flag, [v for v, b in exits]), f.loc())
+        res.violation(rid, "%s/exit" % label, "%s: the fixpoint loop is left when `%s` is %s" % (label, flag, exit_vals), f.loc())
     # assignments to the flag (function body)
     trues, falses, others = [], [], []
     for i, j, s in f.stmts():
